@@ -41,10 +41,23 @@ theorem RSt.view_congr {r r' : RSt} (h : r.norm = r'.norm) (b : ByteArray) (L : 
   have := congrArg (fun x : RSt => x.view b L) h
   simpa [RSt.norm, RSt.view_view] using this
 
+/-- The saved mid-symbol resume point is consistent with the state ("replay invariant"): `rc_read_init` is over, the saved input
+    position is not ahead of the current one, and decoding the interrupted symbol again from the saved members over ANY input that
+    agrees with the bytes consumed so far reads at least up to the current input position. (Holds trivially when `sym0 = none`;
+    established by every `lzmaCallR` that stops inside a symbol, because that call consumed all of its input.) -/
+def SymPre (r : RSt) : Prop := ∀ k, r.sym0 = some k →
+  r.s.initLeft = 0 ∧ k.inPos ≤ r.s.inPos ∧
+  ∀ (L : Nat) (b : ByteArray), Agree r.s.inPos r.s.inp b →
+    r.s.inPos ≤ (resSt (decodeSymbol (r.s.uncomp.isNone || r.s.eopmValid)
+      (k.restore { r.s with inp := b, dp := { r.s.dp with limit := L }, pending := .none }))).inPos
+
 /-- precondition of one `lzma_decode` call under the view `(b, L)` -/
 structure Pre1 (r : RSt) (b : ByteArray) (L : Nat) : Prop where
   inPos : r.s.inPos ≤ b.size
   pos : r.s.dp.pos ≤ L
+  /-- the new input continues the consumed bytes -/
+  agree : Agree r.s.inPos r.s.inp b
+  sym : SymPre r
   /-- not "known uncompressed size AND end marker allowed" (LZMA2 chunks, LZMA1 with unknown size, LZMA1 with known size
       without LZMA_LZMA1EXT_ALLOW_EOPM are all covered; `.lzma` files with known size are not) -/
   eopm : r.s.allowEopm = false ∨ r.s.uncomp = none
@@ -58,8 +71,8 @@ def L1Absorb : Prop :=
 
 /-- what one `lzma_decode` call may change (as `Lzma.lzmaCall_spec` for the one-shot model) -/
 def L1Spec : Prop :=
-  ∀ (r : RSt), r.s.inPos ≤ r.s.inp.size → r.s.dp.pos ≤ r.s.dp.limit →
-    Wr r.s (lzmaCallR r).2.s ∧ (lzmaCallR r).1 ≠ .progError ∧ (lzmaCallR r).2.overrun = r.overrun
+  ∀ (r : RSt), SymPre r → r.s.inPos ≤ r.s.inp.size → r.s.dp.pos ≤ r.s.dp.limit →
+    SymPre (lzmaCallR r).2 ∧ Wr r.s (lzmaCallR r).2.s ∧ (lzmaCallR r).1 ≠ .progError ∧ (lzmaCallR r).2.overrun = r.overrun
     ∧ (lzmaCallR r).2.s.allowEopm = r.s.allowEopm ∧ ((lzmaCallR r).2.s.uncomp = none ↔ r.s.uncomp = none)
     ∧ (lzmaCallR r).2.s.dp.hasWrapped = r.s.dp.hasWrapped
     ∧ (r.s.dp.hasWrapped = false → r.s.dp.full + LZ_DICT_INIT_POS = r.s.dp.pos →
@@ -69,22 +82,24 @@ def L1Spec : Prop :=
     `P r` = invariant of the coder between `code` calls that does not depend on (`inp`, `dp.limit`). -/
 structure CodeAbsorb (P : RSt → Prop) (code : RSt → Ret × RSt) : Prop where
   /-- frame -/
-  spec : ∀ r, P r → r.s.inPos ≤ r.s.inp.size → r.s.dp.pos ≤ r.s.dp.limit →
+  spec : ∀ r, P r → r.s.dp.needReset = false → r.s.inPos ≤ r.s.inp.size → r.s.dp.pos ≤ r.s.dp.limit →
     Cr r.s (code r).2.s ∧ (code r).1 ≠ .progError ∧ P (code r).2
     ∧ ((code r).2.s.dp.needReset = true → r.s.dp.needReset = true ∨ r.s.inPos < (code r).2.s.inPos)
     ∧ (code r).2.s.dp.hasWrapped = r.s.dp.hasWrapped
     ∧ (r.s.dp.hasWrapped = false → r.s.dp.full + LZ_DICT_INIT_POS = r.s.dp.pos →
         (code r).2.s.dp.full + LZ_DICT_INIT_POS = (code r).2.s.dp.pos)
-  /-- `P` ignores the per-call members and the dictionary positions the LZ layer changes (wrap, reset) -/
-  frame : ∀ r r', P r → r'.s = { r.s with inp := r'.s.inp, dp := r'.s.dp } → r'.sym0 = r.sym0 → r'.overrun = r.overrun → P r'
+  /-- `P` survives a new input that continues the consumed bytes and a new `dict.limit` -/
+  frame_view : ∀ r b L, P r → Agree r.s.inPos r.s.inp b → P (r.view b L)
+  /-- … and the dictionary reset of the LZ layer (`lz_decoder_reset` after `need_reset`) -/
+  frame_reset : ∀ r, P r → r.s.dp.needReset = true → P (r.map fun s => { s with dp := s.dp.reset })
   /-- the call with fewer resources ended with something other than LZMA_OK: so does the call with more -/
-  stop : ∀ r b b' L L', P r → r.s.inPos ≤ b.size → r.s.dp.pos ≤ L → Agree b.size b b' → L ≤ L' → r.s.dp.needReset = false →
+  stop : ∀ r b b' L L', P r → Agree r.s.inPos r.s.inp b → r.s.inPos ≤ b.size → r.s.dp.pos ≤ L → Agree b.size b b' → L ≤ L' → r.s.dp.needReset = false →
     (code (r.view b L)).1 ≠ .ok → Eqv (code (r.view b' L')) (code (r.view b L))
   /-- it returned LZMA_OK to let the LZ layer reset the dictionary: the call with more resources stops at the same place -/
-  yield : ∀ r b b' L L', P r → r.s.inPos ≤ b.size → r.s.dp.pos ≤ L → Agree b.size b b' → L ≤ L' → r.s.dp.needReset = false →
+  yield : ∀ r b b' L L', P r → Agree r.s.inPos r.s.inp b → r.s.inPos ≤ b.size → r.s.dp.pos ≤ L → Agree b.size b b' → L ≤ L' → r.s.dp.needReset = false →
     (code (r.view b L)).1 = .ok → (code (r.view b L)).2.s.dp.needReset = true → Same (code (r.view b' L')) (code (r.view b L))
   /-- it returned LZMA_OK for lack of input or output space: the call with more resources = continuing with more resources -/
-  resume : ∀ r b b' L L', P r → r.s.inPos ≤ b.size → r.s.dp.pos ≤ L → Agree b.size b b' → L ≤ L' → r.s.dp.needReset = false →
+  resume : ∀ r b b' L L', P r → Agree r.s.inPos r.s.inp b → r.s.inPos ≤ b.size → r.s.dp.pos ≤ L → Agree b.size b b' → L ≤ L' → r.s.dp.needReset = false →
     (code (r.view b L)).1 = .ok → (code (r.view b L)).2.s.dp.needReset = false →
     Eqv (code (r.view b' L')) (code ((code (r.view b L)).2.view b' L'))
 
